@@ -6,7 +6,7 @@ from vlib import util, ref, gen, stats, spec as specmod
 PROPERTY = "C05"
 RULE = ("small finite-state networks from templates x random wiring (conversion chains/cycles, 2A->B, 3A->B, G+2A->C, catalysis with a "
         "consumed resource, competing reactions with rates spread over two decades, Hill families and general rates as propensities, "
-        "zero-order production + degradation truncated at mean+12 sigma), initial counts 0-8, grids of 3-8 points (uniform, strongly "
+        "zero-order production + degradation truncated at mean+12 sigma, repeated reactants with fewer copies than the reaction needs), initial counts 0-8, grids of 3-8 points (uniform, strongly "
         "non-uniform, dense, sparse, starting at 0 or later); n independent seeded runs through SSASimulator on plain and safe interfaces "
         "and py_simulate_model; every marginal cell at every time and the joint cells of three time pairs are tested against the CME "
         "(expm of the generator built from reference propensities) with exact binomial tails at per-cell level 1e-15, rejection must be "
@@ -131,12 +131,28 @@ def template(rnd, name, variant=None):
         sp = {"species": sorted(x0), "x0": x0, "reactions": rx}
         finite = False
         sims = ["ssa", "psm"]
+    elif name == "rare_repeat":
+        # fewer copies than a repeated reactant needs: the reaction can never fire (A(A-1) = 0 at A = 1, A(A-1)(A-2) = 0 at A <= 2).
+        # Its rate constant is small, so that code which does let it fire yields runs that END in a state the master equation
+        # cannot reach (a negative count) instead of an endless simulation; an ordinary reversible conversion runs beside it
+        form = rnd.randrange(3)
+        kc = K(rnd, 0.5, 2)
+        kr = float("%.3g" % (kc * rnd.uniform(0.002, 0.004)))
+        if form == 0:
+            rx, a0 = [ma(["A", "A"], ["B"], kr)], 1
+        elif form == 1:
+            rx, a0 = [ma(["A", "A", "A"], ["B"], kr)], rnd.choice([1, 2])
+        else:
+            rx, a0 = [ma(["A", "G", "A"], ["B", "G"], kr)], 1
+        rx += [ma(["C"], ["D"], kc), ma(["D"], ["C"], K(rnd, 0.5, 2))]
+        sp = {"species": ["A", "B", "G", "C", "D"], "x0": {"A": a0, "B": 0, "G": rnd.randint(1, 3), "C": rnd.randint(2, 4), "D": rnd.randint(1, 2)}, "reactions": rx}
+        finite = False
     sp["params"] = {}
     sp["rules"] = []
     return sp, finite, sims, cap
 
 
-TEMPLATES = ["chain", "homodimer", "trimer", "catalysis", "competing", "hill", "general", "birthdeath", "large_counts"]
+TEMPLATES = ["chain", "rare_repeat", "homodimer", "trimer", "catalysis", "competing", "hill", "general", "birthdeath", "large_counts"]
 
 
 def make_grid(rnd, rate_scale):
